@@ -48,7 +48,7 @@ def write_report(prop, i, n):
     return p
 
 
-def run_property(prop, tier, repo, seed):
+def run_property(prop, tier, repo, seed, write=True, quiet=False):
     t0 = time.time()
     mod = importlib.import_module('rules.' + prop.lower())
     insts = []
@@ -98,13 +98,13 @@ def run_property(prop, tier, repo, seed):
             new_viol.append(i)
     n = 0
     for i in new_viol:
-        p = write_report(prop, i, n)
+        p = write_report(prop, i, n) if write else '(not written)'
         n += 1
         out_lines.append('VIOLATION property=%s replay=%s' % (prop, p))
         out_lines.append('  %s: %s' % (i['key'], i['detail'].split('\n')[0][:300]))
     for e in engine_errors:
         i = inst('ENGINE', hashlib.sha1(e.encode()).hexdigest()[:8], False, 'ENGINE: ' + e)
-        p = write_report(prop, i, n)
+        p = write_report(prop, i, n) if write else '(not written)'
         n += 1
         out_lines.append('VIOLATION property=%s replay=%s' % (prop, p))
         out_lines.append('  ENGINE: ' + e.split('\n')[0][:300])
@@ -154,9 +154,13 @@ def run_property(prop, tier, repo, seed):
         'wall_s': round(wall, 2),
         'violations': len(new_viol) + len(engine_errors),
     }
-    os.makedirs(os.path.join(VERIF, 'evidence'), exist_ok=True)
-    with open(os.path.join(VERIF, 'evidence', '%s.json' % prop), 'w') as f:
-        json.dump(ev, f, indent=1, default=str)
+    if write:
+        os.makedirs(os.path.join(VERIF, 'evidence'), exist_ok=True)
+        with open(os.path.join(VERIF, 'evidence', '%s.json' % prop), 'w') as f:
+            json.dump(ev, f, indent=1, default=str)
+    if quiet:
+        return {'violations': [i['key'] for i in new_viol], 'engine_errors': engine_errors, 'instances': len(insts),
+                'details': {i['key']: i['detail'] for i in new_viol}}
 
     print('%s tier=%s: %d rule instances, %d hold, %d violated (%d known), %d engine errors, %.1fs'
           % (prop, tier, len(insts), len(oks), len(violations), len(violations) - len(new_viol), len(engine_errors), wall))
